@@ -21,7 +21,11 @@ pub struct CheckSpec {
     pub quick_runs: u64,
     pub thorough_secs: u64,
     pub assumptions: &'static [&'static str],
+    /// additional whole-run check (e.g. twin runs); its violations replay by seed, not by event list
+    pub extra: Option<ExtraCheck>,
 }
+
+pub type ExtraCheck = fn(u64, Profile, bool, Option<usize>, &mut Coverage) -> Option<Violation>;
 
 #[derive(Default)]
 pub struct RunResult {
@@ -190,6 +194,8 @@ pub fn write_replay(path: &str, id: &str, seed: u64, profile: Profile, thorough:
 }
 
 pub struct ReplayDoc {
+    pub mode_extra: bool,
+    pub max_events: Option<usize>,
     pub property: String,
     pub seed: u64,
     pub profile: Profile,
@@ -202,6 +208,8 @@ pub fn read_replay(path: &str) -> Option<ReplayDoc> {
     let s = std::fs::read_to_string(path).ok()?;
     let v: Value = serde_json::from_str(&s).ok()?;
     Some(ReplayDoc {
+        mode_extra: v["mode"].as_str() == Some("extra"),
+        max_events: v["max_events"].as_u64().map(|x| x as usize),
         property: v["property"].as_str()?.to_string(),
         seed: v["seed"].as_u64()?,
         profile: Profile::parse(v["profile"].as_str()?)?,
@@ -272,6 +280,7 @@ pub fn run_batch(spec: &CheckSpec, thorough: bool, base_seed: u64, runs_override
         Arc::new(Mutex::new((Coverage::default(), BTreeMap::new(), 0, 0, 0, 0, Vec::new())));
     let profile = spec.profile;
     let mk = spec.mk;
+    let extra = spec.extra;
     let mut handles = Vec::new();
     for _ in 0..threads {
         let next = next.clone();
@@ -301,6 +310,13 @@ pub fn run_batch(spec: &CheckSpec, thorough: bool, base_seed: u64, runs_override
                         simsec += r.sim_seconds;
                         for (k, v) in &r.faults {
                             *local_faults.entry(k).or_insert(0) += v;
+                        }
+                        if r.violations.is_empty() {
+                            if let Some(x) = extra {
+                                if let Some(v) = x(seed, profile, thorough, None, &mut r.cov) {
+                                    r.violations.push(v);
+                                }
+                            }
                         }
                         local_cov.merge(std::mem::take(&mut r.cov));
                         if !r.violations.is_empty() {
@@ -347,6 +363,20 @@ pub fn run_batch(spec: &CheckSpec, thorough: bool, base_seed: u64, runs_override
             continue;
         }
         n_viol += 1;
+        if v.class.starts_with("twin_") {
+            // whole-run check: the replay file names the seed and the event bound; replay re-derives the runs
+            let bound = v.event_idx + 1;
+            let path = format!("/verif/replays/{}-{}.json", spec.id, seed);
+            let doc = json!({"property": spec.id, "seed": seed, "profile": profile.name(), "thorough": thorough, "mode": "extra", "max_events": bound,
+                "violation": {"property": v.property, "class": v.class, "detail": v.detail, "event_idx": v.event_idx}, "events": []});
+            let _ = std::fs::create_dir_all("/verif/replays");
+            let _ = std::fs::write(&path, serde_json::to_string_pretty(&doc).unwrap());
+            println!("VIOLATION property={} replay={}", spec.id, path);
+            println!("  seed={} class={} (run truncated to {} events): {}", seed, v.class, bound, v.detail);
+            reported.push(json!({"seed": seed, "class": v.class, "detail": v.detail, "replay": path}));
+            exit = 1;
+            continue;
+        }
         // minimise + replay file
         let min = minimise(*seed, profile, thorough, r.history.clone(), mk, v.property, &v.class);
         let vv = replay_events(*seed, profile, thorough, &min, mk);
